@@ -73,6 +73,7 @@ impl Profile {
                                p.w_insert_edges = 1; p.w_index = 1; p.w_tx = 3; p.w_insert_values = 2; p.w_remove_values = 1; p.reads_per_step = 0; p.max_elems = 8; }
             "churn_index" => { p.w_index = 6; p.w_insert_values = 40; p.w_remove_values = 25; p.w_update_nodes = 10; p.w_insert_nodes = 5; p.w_remove = 5;
                                p.w_insert_edges = 2; p.w_tx = 4; p.w_insert_aliases = 2; p.reads_per_step = 1; p.max_elems = 8; }
+            "crash" => { p.w_tx = 0; p.reads_per_step = 0; p.max_elems = 12; p.w_index = 6; }
             "elements" => { p.w_remove = 16; p.w_insert_nodes = 14; p.w_insert_edges = 14; p.reads_per_step = 2; }
             _ => {}
         }
@@ -83,21 +84,21 @@ impl Profile {
 const NAMES: [&str; 4] = ["a", "b", "c", "d"];
 const KEYS: [&str; 3] = ["k", "m", "z"];
 
-struct View {
-    nodes: Vec<i64>,
-    edges: Vec<i64>,
-    aliases: Vec<(String, i64)>,
+pub struct View {
+    pub nodes: Vec<i64>,
+    pub edges: Vec<i64>,
+    pub aliases: Vec<(String, i64)>,
 }
 
 impl View {
-    fn from_obs(o: &Value) -> View {
+    pub fn from_obs(o: &Value) -> View {
         let nodes = o["nodes"].as_array().unwrap().iter().map(|x| x.as_i64().unwrap()).collect();
         let edges = o["edges"].as_array().unwrap().iter().map(|x| x[0].as_i64().unwrap()).collect();
         let aliases = o["aliases"].as_array().unwrap().iter()
             .map(|x| (x[0].as_str().unwrap().to_string(), x[1].as_i64().unwrap())).collect();
         View { nodes, edges, aliases }
     }
-    fn all(&self) -> Vec<i64> {
+    pub fn all(&self) -> Vec<i64> {
         let mut v = self.nodes.clone();
         v.extend(&self.edges);
         v
@@ -141,10 +142,10 @@ pub fn exotic_value(rng: &mut Rng) -> DbValue {
     }
 }
 
-struct Gen<'a> {
-    rng: &'a mut Rng,
-    p: &'a Profile,
-    keys_pool: Vec<DbValue>,
+pub struct Gen<'a> {
+    pub rng: &'a mut Rng,
+    pub p: &'a Profile,
+    pub keys_pool: Vec<DbValue>,
 }
 
 impl Gen<'_> {
@@ -221,7 +222,7 @@ impl Gen<'_> {
         }
     }
 
-    fn mutation(&mut self, view: &View) -> Option<MQ> {
+    pub fn mutation(&mut self, view: &View) -> Option<MQ> {
         let p = self.p;
         let room = view.nodes.len() + view.edges.len() < p.max_elems;
         let total = p.w_insert_nodes + p.w_update_nodes + p.w_insert_edges + p.w_update_edges + p.w_insert_aliases
